@@ -683,6 +683,8 @@ class MultiFit(FitBase):
     @property
     def goodness_of_fit(self):
         _gof_sum = 0.0
+        for _parameter_constraint in self._fit_param_constraints:
+            _gof_sum += _parameter_constraint.cost(self.parameter_values)
         for _i, _fit in enumerate(self._fits):
             if self._shared_error_nodes_initialized and _fit._cost_function.is_chi2:
                 _constraint_cost_node = self._nexus.get("constraint_cost%s" % _i)
